@@ -58,6 +58,8 @@ class NPProxy:
             if isinstance(x, np.ndarray) and x.dtype == object:
                 return getattr(np, name)(lift_arr(x), *a, **k)
             if isinstance(x, (int, float)) and not isinstance(x, bool) and name == "log":
+                if x == 0:
+                    return float("-inf")        # np.log(0) = -inf (only reached with cpu_ops.epsilon := 0)
                 return S.of(x).log()
             return getattr(np, name)(x, *a, **k)
         return f
